@@ -19,7 +19,7 @@ import random
 from .. import core, tlc
 
 LEVEL = "model_checking"
-SYM0 = {1: "a", 2: "b", 3: "z", 4: "π", 5: "€", 6: "ρ", 7: "₭"}
+SYM0 = {1: "a", 2: "b", 3: "z", 4: "π", 5: "€", 6: "ρ", 7: "₭", 8: "→"}
 LEAD = {"π": "ρ", "é": "è"}      # a symbol sharing its lead octet with the two-octet symbol
 SYM = SYM0
 
@@ -76,7 +76,10 @@ def _work(job):
     if out["bytes_supported"] != bool(sup) and not out["problems"]:
         out["drift"].append({"s": None, "why": "construction %s, coded-translation model says %s" % (
             "accepted" if out["bytes_supported"] else "refused", "supported" if sup else "unsupported")})
+    thin = len(job) > 7 and job[7]       # quick tier: every string of length <= 2, every fourth of the longer ones (rotating with the expression)
     for idx, (syms, (n, acc)) in enumerate(zip(strs, res)):
+        if thin and len(syms) > 2 and (idx + seed) % 4:
+            continue
         s = "".join(SYM[c] for c in syms)
         for kind, m in machines:
             if kind == "str":
@@ -120,7 +123,7 @@ def _work(job):
                                          "got": [repr(x) for x in results[0]]})
             if first_bad is not None:
                 ch, sent, stored, term, exc, f10 = first_bad
-                mb = kind == "bytes" and any(c in (4, 5, 6, 7) for c in syms)
+                mb = kind == "bytes" and any(c in (4, 5, 6, 7, 8) for c in syms)
                 # whatever language a machine accepts, its behaviour must not depend on the chunking, what it stored must be the
                 # input it consumed, and the only failure is NonTerminal: a disagreement with the oracle that breaks these is not
                 # the known octet-level reading of '.' / negated classes (F11), it is something else
@@ -137,7 +140,7 @@ def main(ctx):
     wd = core.workdir()
     cfgp = os.path.join(wd, "re.cfg")
     maxlen = 3 if ctx.quick else 4
-    tlc.write_cfg(cfgp, ["INIT RInit", "NEXT RNext", "CONSTRAINT REmit", "CHECK_DEADLOCK FALSE", "CONSTANTS", " Sigma = {1,2,3,4,5,6,7}",
+    tlc.write_cfg(cfgp, ["INIT RInit", "NEXT RNext", "CONSTRAINT REmit", "CHECK_DEADLOCK FALSE", "CONSTANTS", " Sigma = {1,2,3,4,5,6,7,8}",
                          " MaxLen = %d" % maxlen, " Size3 = TRUE", " Enc <- EncDef"])
     res = tlc.run("MC_Regex", cfgp, spec_dir=wd, timeout=3000)
     ev.tlc("oracle", res)
@@ -149,14 +152,14 @@ def main(ctx):
     strs = strs[0]
     ev.rule = ("cases: (expression, string, chunking): every expression of size <= 2 and every cat/alt of two atoms (quick) / "
                "also size 3 (thorough) over atoms {a, b, pi, euro, '.', [ab], [a pi], [b euro], [^a], [^pi], [^a euro]} with "
-               "* + ? {m,n}; every string of length <= %d over {a, b, z, pi, euro, rho (lead octet of pi), kip (two lead octets of euro)}; machines over symbols and over UTF-8 octets; "
+               "* + ? {m,n}; every string of length <= 2 and (quick: every fourth, rotating with the expression; thorough: every) string of length 3..%d over {a, b, z, pi, euro, rho (lead octet of pi), kip (two lead octets of euro), arrow (one lead octet of euro)}; machines over symbols and over UTF-8 octets; "
                "whole / symbol-at-a-time / sampled two-way split.  Non-trivial: the string is neither fully consumed nor "
                "rejected at its first symbol." % maxlen)
     ev.assumptions = ["expressions regex_bytes refuses at construction for the documented multi-byte restriction are counted as unsupported",
                       "bounded repetition only of non-nullable atoms"]
     # the abstract two-octet symbol is instantiated as U+03C0 (pi) or as U+00E9 (e acute: inside the Latin-1 range)
     if ctx.quick:
-        jobs = [(e["text"], strs, e["res"], ctx.seed + i, "π" if i % 2 == 0 else "é", e["sup"], e["cod"]) for i, e in enumerate(exprs)]
+        jobs = [(e["text"], strs, e["res"], ctx.seed + i, "π" if i % 2 == 0 else "é", e["sup"], e["cod"], True) for i, e in enumerate(exprs)]
     else:
         jobs = [(e["text"], strs, e["res"], ctx.seed + i, c, e["sup"], e["cod"]) for i, e in enumerate(exprs) for c in ("π", "é")]
         exprs = [e for e in exprs for _ in (0, 1)]
@@ -164,13 +167,15 @@ def main(ctx):
     unsupported = 0
     classes = {}
     drift, coded_checked = [], 0
-    for e, r in zip(exprs, results):
+    for (e, r), jb in zip(zip(exprs, results), jobs):
         unsupported += 0 if r["bytes_supported"] else 1
         drift += [(r["text"], d) for d in r["drift"]]
         coded_checked += r["coded_checked"]
         ev.evaluations += r["runs"]
         ev.impl += r["runs"]
-        for (n, acc), syms in zip(e["res"], strs):
+        for idx, ((n, acc), syms) in enumerate(zip(e["res"], strs)):
+            if len(jb) > 7 and jb[7] and len(syms) > 2 and (idx + jb[3]) % 4:
+                continue              # (not run in the quick tier)
             if 0 < n < len(syms):
                 ev.nontrivial.add(hash((e["text"], tuple(syms))))
         for p in r["problems"]:
